@@ -320,7 +320,7 @@ func ident(s string) string {
 func (f *fn) fail(n ast.Node, format string, a ...interface{}) string {
 	f.failed = true
 	pos := fset.Position(n.Pos())
-	problem("%s (%s:%d): %s", f.spec.Name, filepath.Base(pos.Filename), pos.Line, fmt.Sprintf(format, a...))
+	problems = append(problems, f.spec.Name+"\x00"+fmt.Sprintf("%s:%d: %s", filepath.Base(pos.Filename), pos.Line, fmt.Sprintf(format, a...)))
 	return "sorryAx _"
 }
 
@@ -1294,7 +1294,7 @@ func main() {
 			pkgs[sp.Pkg] = l
 		}
 		if l == nil {
-			problem("%s: package %s did not load", sp.Name, sp.Pkg)
+			problems = append(problems, sp.Name+"\x00"+fmt.Sprintf("package %s did not load", sp.Pkg))
 			continue
 		}
 		var decl *ast.FuncDecl
@@ -1316,7 +1316,7 @@ func main() {
 			}
 		}
 		if decl == nil {
-			problem("%s.%s: function not found in %s", sp.Recv, sp.Name, sp.Pkg)
+			problems = append(problems, sp.Name+"\x00"+fmt.Sprintf("function %s.%s not found in %s", sp.Recv, sp.Name, sp.Pkg))
 			continue
 		}
 		obj, _ := l.info.Defs[decl.Name].(*types.Func)
@@ -1392,9 +1392,13 @@ func main() {
 	sort.Strings(problems)
 	var ps []string
 	for _, p := range problems {
-		ps = append(ps, fmt.Sprintf("%q", p))
+		fn, msg := "(translator)", p
+		if i := strings.Index(p, "\x00"); i >= 0 {
+			fn, msg = p[:i], p[i+1:]
+		}
+		ps = append(ps, fmt.Sprintf("(%q, %q)", fn, msg))
 	}
 	fmt.Fprintf(&b, "def translated : List String := [%s]\n\n", strings.Join(okFuncs, ", "))
-	fmt.Fprintf(&b, "def translationProblems : List String := [%s]\n\nend Helios.Generated.Code\n", strings.Join(ps, ",\n  "))
+	fmt.Fprintf(&b, "/-- (function, what could not be translated) -/\ndef translationProblems : List (String × String) := [%s]\n\nend Helios.Generated.Code\n", strings.Join(ps, ",\n  "))
 	fmt.Print(b.String())
 }
